@@ -174,7 +174,10 @@ def generate(yaml, args, out):
 def inline_yaml(inp, out):
     lines = ["library: gen", "cxx_header: gen.h",
              "language: %s" % inp.get("language", "c++"), "options:", "  wrap_python: false", "  wrap_lua: false"]
-    for k, v in sorted((inp.get("options") or {}).items()):
+    opts = dict(inp.get("options") or {})
+    if "wrap_python" in opts:
+        lines = [l for l in lines if not l.startswith("  wrap_python")]
+    for k, v in sorted(opts.items()):
         lines.append("  %s: %s" % (k, v))
     lines.append("declarations:")
     for d in inp.get("pre", []):
@@ -274,6 +277,13 @@ def synthetic():
         for intent in ("in", "out", "inout"):
             for extra in ("", "+len(30)", "+rank(1)"):
                 shapes.append("void f%%d(%s%s %sarg +intent(%s)%s)" % ("const " if intent == "in" else "", t, ptr, intent, extra))
+    # arrays of pointers, fixed arrays, pointers to arrays
+    for t in ("int", "double", "char"):
+        for intent in ("in", "out", "inout"):
+            shapes.append("void f%%d(%s *arg[4] +intent(%s))" % (t, intent))
+            # fixed-size array parameters (T arg[10], T arg[4][5]) are a recorded known finding (declared by value in the
+            # interface): left out here, replayed by the check
+            shapes.append("void f%%d(%s **arg +intent(%s)+rank(1))" % (t, intent))
     for t in ("int *", "double *", "const char *", "std::string", "const std::string &", "std::vector<int>", "int **"):
         for deref in (None, "raw", "pointer", "allocatable", "scalar"):
             for extra in ("", "+dimension(4)", "+owner(caller)"):
